@@ -144,8 +144,8 @@ def policy_iteration_vectorized(
         state_values = \
             np.linalg.solve(
                 cumulant_matrix,
-                state_rewards,
-            )
+                state_rewards[..., np.newaxis],
+            )[..., 0]
         action_values = np.einsum(
             "b,bsan,bn->bsa",
             discount_rate,
